@@ -133,6 +133,10 @@ pub struct Outcome {
     pub collateral_helper: Option<String>,
     pub collateral_pct: Option<u64>,
     pub required_signer_hints_plain: bool,
+    /// markers of redeemers the builder accepted for a certificate that is not script-locked by the ledger's rules
+    pub unlocked_markers: Vec<u64>,
+    /// certificates that are script-locked by the ledger's rules and were admitted by plain add() (no witness)
+    pub unwitnessed_locked: Vec<Vec<u8>>,
 }
 
 #[derive(Clone, Copy)]
@@ -356,6 +360,8 @@ struct Run<'a> {
     implicit_in: u128,
     deposits: u128,
     cert_seen: Vec<Vec<u8>>,
+    unlocked_markers: Vec<u64>,
+    unwitnessed_locked: Vec<Vec<u8>>,
     hints_plain: bool,
 }
 
@@ -753,7 +759,15 @@ impl<'a> Run<'a> {
                 Certificate::new_pool_registration(&PoolRegistration::new(&pp))
             }
             6 => Certificate::new_pool_retirement(&PoolRetirement::new(&pool, 100 + self.t.choose(3) as u32)),
-            7 => Certificate::new_committee_hot_auth(&CommitteeHotAuth::new(&cred, &key_cred2)),
+            7 => {
+                // the hot credential is independent of the cold one (which alone authorises the certificate)
+                let hot = match self.t.choose(3) {
+                    1 => Credential::from_scripthash(&self.w.plutus_hash(self.t.choose(4))),
+                    2 => Credential::from_scripthash(&self.w.native_hash(self.t.choose(5))),
+                    _ => key_cred2.clone(),
+                };
+                Certificate::new_committee_hot_auth(&CommitteeHotAuth::new(&cred, &hot))
+            }
             8 => Certificate::new_committee_cold_resign(&CommitteeColdResign::new(&cred)),
             9 => Certificate::new_drep_registration(&DRepRegistration::new(&cred, &bn(coin))),
             10 => Certificate::new_drep_deregistration(&DRepDeregistration::new(&cred, &bn(coin))),
@@ -768,8 +782,12 @@ impl<'a> Run<'a> {
         if self.cert_seen.contains(&cbytes) {
             return;
         }
-        let needs_script = catch(|| cert.has_required_script_witness()).unwrap_or(false);
-        let ok;
+        // Whether the certificate is script-locked is the ledger's rule, not the library's answer: the credential that
+        // authorises it (stake / cold / DRep credential) is a script hash. Pool certificates are authorised by keys.
+        // A legacy registration (kind 0) needs no witness at all in the ledger; there the library's own answer is used.
+        let lib_needs = catch(|| cert.has_required_script_witness()).unwrap_or(false);
+        let needs_script = if kind == 0 { lib_needs } else { ck != 0 && kind != 5 && kind != 6 };
+        let mut ok;
         if needs_script && ck == 1 {
             let (src, refin, hint) = self.native_source(ci);
             ok = self.call("cb.add_with_native_script", |s| s.cb.add_with_native_script(&cert, &src)).is_some();
@@ -787,6 +805,24 @@ impl<'a> Run<'a> {
             }
         } else {
             ok = self.call("cb.add", |s| s.cb.add(&cert)).is_some();
+        }
+        // a refused caller follows the builder's advice and takes the other door; whatever gets in that way is recorded
+        if !ok && kind != 0 && kind != 5 && kind != 6 {
+            if needs_script {
+                if self.call("cb.add(after the script route was refused)", |s| s.cb.add(&cert)).is_some() {
+                    ok = true;
+                    self.unwitnessed_locked.push(cbytes.clone());
+                }
+            } else {
+                let (red, marker) = self.redeemer(&RedeemerTag::new_cert());
+                let (src, _refin, _hint) = self.plutus_source(0);
+                let wit = PlutusWitness::new_with_ref_without_datum(&src, &red);
+                if self.call("cb.add_with_plutus_witness(after add was refused)", |s| s.cb.add_with_plutus_witness(&cert, &wit)).is_some() {
+                    ok = true;
+                    self.plutus_used = true;
+                    self.unlocked_markers.push(marker);
+                }
+            }
         }
         if ok {
             self.cert_seen.push(cbytes);
@@ -1001,25 +1037,41 @@ impl<'a> Run<'a> {
             }
             4 => {
                 let mut md = GeneralTransactionMetadata::new();
-                md.insert(&bn(self.t.choose(3) as u64), &TransactionMetadatum::new_text("hello".into()).unwrap());
+                // an empty metadata map is still auxiliary data: it is attached and hashed like any other
+                let empty = self.t.chance(50);
+                if !empty {
+                    md.insert(&bn(self.t.choose(3) as u64), &TransactionMetadatum::new_text("hello".into()).unwrap());
+                }
                 self.tb.set_metadata(&md);
-                self.ops.push("metadata".into());
+                self.ops.push(if empty { "metadata(empty)".into() } else { "metadata".into() });
             }
             5 => {
                 let mut aux = AuxiliaryData::new();
-                let mut md = GeneralTransactionMetadata::new();
-                md.insert(&bn(674), &TransactionMetadatum::new_int(&Int::new_i32(7)));
-                aux.set_metadata(&md);
-                if self.t.bool() {
-                    let mut ns = NativeScripts::new();
-                    ns.add(&self.w.natives[self.t.choose(5)]);
-                    aux.set_native_scripts(&ns);
+                // 0: bare AuxiliaryData::new(); 1: empty metadata map and empty script list; otherwise: content
+                let shape = match self.t.choose(6) {
+                    1 => 0,
+                    2 => 1,
+                    _ => 2,
+                };
+                if shape >= 1 {
+                    let mut md = GeneralTransactionMetadata::new();
+                    if shape == 2 {
+                        md.insert(&bn(674), &TransactionMetadatum::new_int(&Int::new_i32(7)));
+                    }
+                    aux.set_metadata(&md);
+                    if self.t.bool() {
+                        let mut ns = NativeScripts::new();
+                        if shape == 2 {
+                            ns.add(&self.w.natives[self.t.choose(5)]);
+                        }
+                        aux.set_native_scripts(&ns);
+                    }
                 }
                 if self.t.chance(60) {
                     aux.set_prefer_alonzo_format(true);
                 }
                 self.tb.set_auxiliary_data(&aux);
-                self.ops.push("auxiliary_data".into());
+                self.ops.push(["auxiliary_data(bare)", "auxiliary_data(empty collections)", "auxiliary_data"][shape].into());
             }
             6 => {
                 self.tb.set_ttl_bignum(&bn(self.t.u64_class()));
@@ -1114,6 +1166,8 @@ pub fn run(tape: &[u8], focus: Focus) -> Option<Outcome> {
         implicit_in: 0,
         deposits: 0,
         cert_seen: Vec::new(),
+        unlocked_markers: Vec::new(),
+        unwitnessed_locked: Vec::new(),
         hints_plain: true,
     };
     // at least one key input first, so that most scenarios have something to balance
@@ -1400,5 +1454,7 @@ pub fn run(tape: &[u8], focus: Focus) -> Option<Outcome> {
         collateral_helper,
         collateral_pct,
         required_signer_hints_plain: r.hints_plain,
+        unlocked_markers: r.unlocked_markers,
+        unwitnessed_locked: r.unwitnessed_locked,
     })
 }
